@@ -71,17 +71,8 @@ theorem caret_wf {s r} {o : Option BoundSet} (h : caret s = some (o, r)) : OptWF
   · cases h
 
 theorem hyphen_wf {s r} {o : Option BoundSet} (h : hyphen s = some (o, r)) : OptWF o := by
-  unfold hyphen at h
-  simp only at h
-  split at h
-  · cases h
-  · split at h
-    · split at h
-      · cases h
-      · split at h
-        · cases h
-        · cases h; intro x hx; exact hyphenSet_wf hx
-    · cases h
+  obtain ⟨u, _, rfl⟩ := hyphen_some h
+  intro x hx; exact hyphenSet_wf hx
 
 theorem simple_wf (s : List Char) : OptWF (simple s).1 := by
   unfold simple
